@@ -258,7 +258,10 @@ def render_argparse(spec, indent=""):
         if typ and typ.startswith("Optional["):
             base = typ[len("Optional["):-1]
         if base and base.startswith("Literal["):
-            kws.append("choices=(%s,)" % base[len("Literal["):-1])
+            # the literal may be written as a tuple, a list or a set (spec["choices_form"]): all three are what
+            # people write for `choices=`
+            inner_lit = base[len("Literal["):-1]
+            kws.append({"list": "choices=[%s]", "set": "choices={%s}"}.get(spec.get("choices_form"), "choices=(%s,)") % inner_lit)
         elif base and base != "str":
             kws.append("type=%s" % base)
         kws.append("help=%r" % p["doc"])
